@@ -209,6 +209,57 @@ func ruleIDClosure(c *Ctx) []Obligation {
 	if n == 0 {
 		obs = append(obs, undecided(R, "closure store", c.Pos(fn.Pos()), "no final store to Identity.Values found"))
 	}
+	// a derivation cycle is an error: the identity whose closure is computed is looked up in the walk's visited set,
+	// and finding it there records an error
+	con := "an identity that turns up among its own derivations is reported"
+	var test *ssa.Lookup
+	eachInstr(fn, func(in ssa.Instruction) {
+		l, isL := in.(*ssa.Lookup)
+		if !isL || l.CommaOk {
+			return
+		}
+		mt, isM := l.X.Type().Underlying().(*types.Map)
+		if !isM || !isBoolType(mt.Elem()) {
+			return
+		}
+		if pt, isP := mt.Key().(*types.Pointer); !isP || namedOf(pt.Elem()) != idT {
+			return
+		}
+		if _, local := l.X.(*ssa.MakeMap); !local {
+			return
+		}
+		test = l
+	})
+	switch {
+	case test == nil:
+		obs = append(obs, bad(R, con, c.Pos(fn.Pos()), "the visited set of the closure walk is never consulted for the identity itself: a derivation cycle (a derived from b, b from a) is accepted silently and every identity on it lists itself"))
+	default:
+		reported := false
+		for _, r := range *test.Referrers() {
+			ifi, isIf := r.(*ssa.If)
+			if !isIf {
+				continue
+			}
+			yes := ifi.Block().Succs[0]
+			for _, b := range fn.Blocks {
+				if !(b == yes || yes.Dominates(b)) || len(yes.Preds) != 1 {
+					continue
+				}
+				for _, in := range b.Instrs {
+					if call, isC := in.(*ssa.Call); isC {
+						if cal := call.Call.StaticCallee(); cal != nil && (cal.String() == "fmt.Errorf" || cal.String() == "errors.New") {
+							reported = true
+						}
+					}
+				}
+			}
+		}
+		if reported {
+			obs = append(obs, ok(R, con, c.InstrPos(test), "if seen[identity] { errs = append(errs, …) }"))
+		} else {
+			obs = append(obs, bad(R, con, c.InstrPos(test), "finding the identity in its own closure records nothing: a derivation cycle is accepted silently"))
+		}
+	}
 	return obs
 }
 
